@@ -11,6 +11,11 @@ The compiled kernels cannot be observed, so:
   * boundscheck cases (both tiers; thorough runs several batches): the same scenarios end to end in a subprocess
     with NUMBA_BOUNDSCHECK=1 (set before numba is imported) where an IndexError raised by a compiled kernel is
     the violation.
+  * scale cases (both tiers, always the same, first in the list; c17_scale.py): the sim scenarios with 1000 ... 130000
+    particles, a state whose size changes in every step, 700-column / 700-row grids with 35 levels, and (bounds-checked
+    only) runs of more than 1000 steps over 13-14 forcing files.  In-process the kernels' Python bodies are run once per
+    DISTINCT argument row of a call (the particles are copies of 16 release positions) and the verdict is attributed to
+    every particle of the row through the inverse index; under NUMBA_BOUNDSCHECK=1 the compiled kernels see all particles.
 Oracle = the property text: an index < 0 or >= extent (or numpy's IndexError) is a read outside the array.
 """
 from __future__ import annotations
@@ -25,6 +30,7 @@ from pathlib import Path
 import numpy as np
 
 import romsfiles as rf
+import c17_scale as scale
 from coqbridge import fl
 
 PROP = "C17"
@@ -35,7 +41,8 @@ RULE = ("kernel cases: trilinear / sample3DUV (both methods) / nearest / z2s Pyt
         "arrays, shapes (N, jmax, imax+1), (N, jmax+1, imax), (N, jmax, imax) with imax, jmax from 2, positions over the "
         "clip box incl. 0.01 and imax-1.01, integers and half-integers, depths above/in/below the level range, negative "
         "controls outside the box; sim cases: whole simulations with EF/RK2/RK4, flow of 0.3-2.6 cells per step towards "
-        "each boundary, sub-rectangles with i0 != j0, diffusion. Non-trivial = distinct (kind, seed) whose reads touch "
+        "each boundary, sub-rectangles with i0 != j0, diffusion; scale cases: the same with 1000-130000 particles, a state that "
+        "grows and shrinks every step, 700-wide / 700-tall grids with 35 levels, 1100-1300 steps over 13-14 forcing files. Non-trivial = distinct (kind, seed) whose reads touch "
         "the first or last row/column of an array, or a simulation in which a stage position was clipped.")
 TRUSTED = ["Coq 8.16.1 kernel + vm_compute", "hand-written model coq/Model/Interp.v tied by this correspondence",
            "the kernels' .py_func bodies are the source numba compiles (numba itself trusted)",
@@ -120,6 +127,9 @@ def gen_cases(ctx):
     rng = ctx.rng
     nt, nuv, nz, nn, ns = (70, 70, 40, 30, 18) if ctx.quick else (700, 700, 400, 300, 120)
     out = []
+    # the scale family: fixed descriptions, always first
+    scale_both, scale_bc = scale.scale_descs()
+    out.extend(scale_both)
     for _ in range(nt):
         out.append({"k": "tri", "seed": rng.randrange(10**9)})
     for n in range(nuv):
@@ -145,9 +155,10 @@ def gen_cases(ctx):
         out.append({"k": "sim", "seed": rng.randrange(10**9), "adv": ["RK4", "RK2", "RK4", "EF"][n % 4], "dir": n % 8,
                     "speed": [1, 2][(n // 8) % 2] if ctx.quick is False else [1, 2][(n // 4) % 2], "diffusion": False, "exact": True})
     # the same scenarios with the COMPILED kernels under NUMBA_BOUNDSCHECK=1 (subprocess; a few seconds per batch)
-    batch = [c for c in out if c["k"] == "sim"]
+    batch = [c for c in out if c["k"] == "sim" and not c.get("scale")]
     for b in range(0, len(batch), 40):
-        out.append({"k": "boundscheck", "scenarios": batch[b:b + 40]})
+        # the scale scenarios (all particles through the compiled kernels) ride in the first batch
+        out.append({"k": "boundscheck", "scenarios": (scale_both + scale_bc if b == 0 else []) + batch[b:b + 40]})
     return out
 
 
@@ -345,6 +356,8 @@ DIRS = [(1, 0), (-1, 0), (0, 1), (0, -1), (1, 1), (-1, -1), (1, -1), (-1, 1)]
 
 def write_scenario(d, desc):
     """files + configuration of one simulation, all derived from the description"""
+    if desc.get("scale"):
+        return scale.write_scale_scenario(d, desc)
     rng = np.random.default_rng(desc["seed"])
     imax0, jmax0, N = int(rng.integers(12, 17)), int(rng.integers(10, 15)), int(rng.integers(2, 5))
     dt, dx, nsteps = 600, 1000.0, 4
@@ -431,46 +444,75 @@ def run_scenario(conf, desc):
 def eval_sim(desc, ctx):
     from ladim import ROMS, tracker
 
+    big = bool(desc.get("scale"))       # scale case: vectorised bookkeeping, one kernel-body evaluation per distinct row
     d = ctx.subdir(f"c17_{desc['seed']}")
     conf, info = write_scenario(d, desc)
-    calls = []          # (kind, shape, x, y, k, triples, ok)
-    clips = []          # (limits, before, after)
+    calls = []          # (kind, shape, x, y, k, triples, ok, particles with these arguments, first of them, particles in the call)
+    clips = []          # (limits, before x, before y, after x, after y, something was moved) — at scale a sample of the particles
+    badclips = []
     tri0, z2s0, clip0 = ROMS.trilinear, ROMS.z2s_kernel, getattr(tracker, "clip", None)
+    # clipped stage positions must stay where i+1, j+1 are inside the arrays: xmin <= x < xmax (strictly below)
+    g = info["g"]
+    gx0, gx1, gy0, gy1 = float(g[0]), float(g[1] - 1), float(g[2]), float(g[3] - 1)
+
+    def groups(*cols):
+        n = len(cols[0])
+        if big:         # every particle is accounted for: particle p has the arguments of distinct row inv[p]
+            return scale.row_groups(*cols)
+        return np.arange(n), np.arange(n), np.ones(n, dtype=np.int64)      # particle by particle
 
     def rec_clip(X, Y, xmin, xmax, ymin, ymax):
-        bx, by = [float(v) for v in X], [float(v) for v in Y]
+        bx, by = np.array(X, dtype=float), np.array(Y, dtype=float)
         clip0(X, Y, xmin, xmax, ymin, ymax)
-        clips.append(((float(xmin), float(xmax), float(ymin), float(ymax)), bx, by, [float(v) for v in X], [float(v) for v in Y]))
+        ax, ay = np.array(X, dtype=float), np.array(Y, dtype=float)
+        n = len(bx)
+        outside_dom = ~((gx0 <= ax) & (ax < gx1) & (gy0 <= ay) & (ay < gy1))
+        moved = (bx != ax) | (by != ay)
+        if outside_dom.any() and not badclips:
+            p = int(np.flatnonzero(outside_dom)[0])
+            badclips.append(f"clipped stage position ({float(ax[p])}, {float(ay[p])}) (unclipped ({float(bx[p])}, {float(by[p])})) is not inside the velocity domain "
+                            f"{gx0} <= x < {gx1}, {gy0} <= y < {gy1}"
+                            + (f" [particle {p} of the {n} in the state; {int(outside_dom.sum())} particles of this stage]" if big else ""))
+        keep = np.arange(n)
+        if big and n > 12:
+            keep = np.unique(np.concatenate([np.flatnonzero(outside_dom)[:3], np.flatnonzero(moved)[:6], [0, n - 1]]).astype(np.int64))
+        clips.append(((float(xmin), float(xmax), float(ymin), float(ymax)), [float(v) for v in bx[keep]], [float(v) for v in by[keep]],
+                      [float(v) for v in ax[keep]], [float(v) for v in ay[keep]], bool(moved.any())))
 
     def rec_tri(F, X, Y, K, A):
-        X, Y, K = np.array(X, dtype=float), np.array(Y, dtype=float), np.array(K)
-        R = np.zeros(len(X))
-        for n in range(len(X)):      # particle by particle so that every read is attributed
+        X, Y, K, A = np.array(X, dtype=float), np.array(Y, dtype=float), np.array(K), np.asarray(A, dtype=float)
+        first, inv, mult = groups(X, Y, K, A)
+        R = np.zeros(len(first))
+        for gi, p in enumerate(first):      # row by row so that every read is attributed
+            p = int(p)
             log, ok = [], 1
             try:
-                R[n] = tri0.py_func(Rec(F, log), X[n:n + 1], Y[n:n + 1], K[n:n + 1], np.asarray(A, dtype=float)[n:n + 1])[0]
+                R[gi] = tri0.py_func(Rec(F, log), X[p:p + 1], Y[p:p + 1], K[p:p + 1], A[p:p + 1])[0]
             except IndexError:
                 ok = 0
             tr = triples_of(log)
             if any(outside(F.shape, t) for t in tr):
                 ok = 0
-            calls.append(("tri", F.shape, float(X[n]), float(Y[n]), int(K[n]), uniq(tr), ok))
-        return R
+            calls.append(("tri", F.shape, float(X[p]), float(Y[p]), int(K[p]), uniq(tr), ok, int(mult[gi]), p, len(X)))
+        return R[inv]
 
     def rec_z2s(I, J, Z, z_rho):
-        Kout, Aout = np.ones(len(I), dtype=np.int64), np.ones(len(I))
-        for n in range(len(I)):
+        Zf = np.asarray(Z, dtype=float)
+        first, inv, mult = groups(np.asarray(I), np.asarray(J), Zf)
+        Kout, Aout = np.ones(len(first), dtype=np.int64), np.ones(len(first))
+        for gi, p in enumerate(first):
+            p = int(p)
             log, ok = [], 1
             try:
-                kk, aa = z2s0.py_func(I[n:n + 1], J[n:n + 1], np.asarray(Z, dtype=float)[n:n + 1], Rec(z_rho, log))
-                Kout[n], Aout[n] = kk[0], aa[0]
+                kk, aa = z2s0.py_func(I[p:p + 1], J[p:p + 1], Zf[p:p + 1], Rec(z_rho, log))
+                Kout[gi], Aout[gi] = kk[0], aa[0]
             except IndexError:
                 ok = 0
             cols = [(0, int(ix[1]), int(ix[2])) for ix in log]
             if any(outside((1,) + z_rho.shape[1:], t) for t in cols):
                 ok = 0
-            calls.append(("z2s", z_rho.shape, float(I[n]), float(J[n]), 0, cols, ok))
-        return Kout, Aout
+            calls.append(("z2s", z_rho.shape, float(I[p]), float(J[p]), 0, cols, ok, int(mult[gi]), p, len(I)))
+        return Kout[inv], Aout[inv]
 
     crash = None
     if clip0 is not None:
@@ -490,23 +532,18 @@ def eval_sim(desc, ctx):
         except OSError:
             pass
     where = (f"advection={desc['adv']} flow {desc['speed']} cells/step direction {DIRS[desc['dir']]} subgrid={info['sub']} grid={info['shape']}"
-             + (" float32 state positions" if desc.get("f32") else "") + (" integer positions" if desc.get("exact") else ""))
+             + (" float32 state positions" if desc.get("f32") else "") + (" integer positions" if desc.get("exact") else "")
+             + (scale.describe(desc) if big else ""))
     oracle = None
-    # clipped stage positions must stay where i+1, j+1 are inside the arrays: xmin <= x < xmax (strictly below)
-    g = info["g"]
-    gx0, gx1, gy0, gy1 = float(g[0]), float(g[1] - 1), float(g[2]), float(g[3] - 1)
-    badclip = None
-    for lim, bx, by, ax, ay in clips:
-        for n in range(len(bx)):
-            if not (gx0 <= ax[n] < gx1 and gy0 <= ay[n] < gy1):
-                badclip = badclip or (f"clipped stage position ({ax[n]}, {ay[n]}) (unclipped ({bx[n]}, {by[n]})) is not inside the velocity domain "
-                                      f"{gx0} <= x < {gx1}, {gy0} <= y < {gy1}")
+    badclip = badclips[0] if badclips else None
     bad = [c for c in calls if not c[6]]
     if bad:
-        kind, shape, x, y, k, tr, _ = bad[0]
+        kind, shape, x, y, k, tr = bad[0][:6]
         worst = [t for t in tr if outside(shape if kind == "tri" else (1,) + shape[1:], t)]
         oracle = (f"{'trilinear' if kind == 'tri' else 'z2s_kernel'} read outside its array of shape {shape} at kernel position x={x} y={y} k={k}"
-                  f" (index {worst[0] if worst else 'beyond the extent (IndexError)'}): {where}")
+                  f" (index {worst[0] if worst else 'beyond the extent (IndexError)'})"
+                  + (f" for {bad[0][7]} of the {bad[0][9]} particles of the call, the first of them particle {bad[0][8]}" if big else "")
+                  + f": {where}")
     elif badclip:
         oracle = f"{badclip}: {where}"
     elif crash:
@@ -517,13 +554,13 @@ def eval_sim(desc, ctx):
         return any(t[1] in (0, shape[1] - 1) or t[2] in (0, shape[2] - 1) for t in c[5])
     chosen = bad[:6] + [c for c in calls if c[6] and edge(c)][:18] + [c for c in calls if c[6] and not edge(c)][:6]
     ints = []
-    for kind, shape, x, y, k, tr, ok in chosen:
+    for kind, shape, x, y, k, tr, ok in (c[:7] for c in chosen):
         if kind == "tri":
             ints.append([1, shape[0], shape[1], shape[2]] + fl(x) + fl(y) + [k, ok] + [v for t in tr for v in t])
         else:
             ints.append([3, shape[1], shape[2]] + fl(x) + fl(y) + [ok] + ([tr[0][1], tr[0][2]] if tr else []))
-    moved = [c for c in clips if c[1] != c[3] or c[2] != c[4]]      # calls that actually clipped something first
-    for lim, bx, by, ax, ay in (moved + [c for c in clips if c not in moved])[:2]:
+    # calls that actually clipped something first
+    for lim, bx, by, ax, ay, _ in ([c for c in clips if c[5]] + [c for c in clips if not c[5]])[:2]:
         c5 = [5, 1, g[0], g[1], g[2], g[3]] + fl(lim[0]) + fl(lim[1]) + fl(lim[2]) + fl(lim[3]) + [len(bx)]
         for n in range(len(bx)):
             c5 += fl(bx[n]) + fl(by[n]) + fl(ax[n]) + fl(ay[n])
@@ -532,10 +569,12 @@ def eval_sim(desc, ctx):
     def onbox(v):
         return any(abs((v % 1) - f) < 1e-9 for f in (0.51, 0.01, 0.49, 0.99))
     clipped = any(c[0] == "tri" and (onbox(c[2]) or onbox(c[3])) for c in calls)
+    most = max([c[9] for c in calls], default=0)
     return {"ints": ints or None, "oracle": oracle, "nontrivial": ("sim", desc["seed"]) if clipped else None,
             "kind": f"sim-{desc['adv']}" + ("-diffusion" if desc.get("diffusion") else "") + ("-float32" if desc.get("f32") else "")
-                    + ("-integer" if desc.get("exact") else ""),
-            "observed": {"kernel_calls": len(calls), "outside": len(bad), "clip_calls": len(clips), "crash": crash, "subgrid": info["sub"], "clipped": clipped}}
+                    + ("-integer" if desc.get("exact") else "") + ("-scale" if big else ""),
+            "observed": {"kernel_calls": len(calls), "outside": len(bad), "clip_calls": len(clips), "crash": crash, "subgrid": info["sub"], "clipped": clipped,
+                         **({"particles_in_largest_call": most, "particles_accounted_for": int(sum(c[7] for c in calls))} if big else {})}}
 
 
 BOUNDSCHECK_SCRIPT = r"""
@@ -587,7 +626,7 @@ def eval_boundscheck(desc, ctx):
     if bad:
         dsc = [s for s in desc["scenarios"] if s["seed"] == bad[0]["seed"]][0]
         oracle = (f"end-to-end run with NUMBA_BOUNDSCHECK=1: {bad[0]['result']} (advection={dsc['adv']} flow {dsc['speed']} cells/step "
-                  f"direction {DIRS[dsc['dir']]} subgrid={bad[0].get('sub')} seed={dsc['seed']})")
+                  f"direction {DIRS[dsc['dir']]} subgrid={bad[0].get('sub')} seed={dsc['seed']}{scale.describe(dsc) if dsc.get('scale') else ''})")
     return {"ints": None, "oracle": oracle, "nontrivial": ("boundscheck", len(res["runs"])), "kind": "boundscheck",
             "observed": {"runs": len(res["runs"]), "failed": len(bad), "boundscheck": res["boundscheck"]}}
 
